@@ -352,12 +352,13 @@ Definition stage_shape_ok (st : stage) : bool :=
   nodup_keys (map r_key (s_rules st)) && nodup_keys (map l_key (s_loader st)) &&
   keys_subset (s_rules st) (s_loader st).
 
-(* one target field under one class assignment: the pipeline either certainly raises or
-   delivers, for key k, a value that is symbolically the same as the specification's *)
+(* one target field under one class assignment: the pipeline must not certainly raise (a
+   serialiser that only raises is not a serialiser) and must deliver, for key k, a value that is
+   symbolically the same as the specification's *)
 Definition check_sigma (K : list val) (sts : list stage) (spec : expr) (k : string)
            (sg : sigma) : bool :=
   match spipeline K (senv_of sg) sts with
-  | None => true
+  | None => false
   | Some sef =>
       match seval K (senv_of sg) spec with
       | RVal s' => sval_same (sget sef k) s'
